@@ -1,4 +1,4 @@
-import Gv.Proofs.BagRef5
+import Gv.Proofs.BagRef10
 /-!
 # C01 — containers stay rectangular, uniquely named and index-consistent
 
@@ -391,18 +391,14 @@ def OpWFR (b : Bag) : Op → Prop
   | .sample _ perm => IsPerm perm b.rows.length
   | _ => True
 
-/-- the operations covered by the refinement theorem: all 24 of the history language except `Concat`
-and `Translate` (for these two the reference model is evaluated by the oracle on every generated
-history instead) -/
-def Covered : Op → Prop
-  | .concat _ => False
-  | .translate _ _ => False
-  | _ => True
-
-/-- **One step refines the reference model**: whenever the reference specifies the outcome of the
-operation on the observable content, the Go-shaped model yields exactly that content (names, row
-order, residues, policy, alphabet, kind) and that status, and the strong invariant holds again. -/
-theorem step_refines (b : Bag) (h : Good b) (op : Op) (hc : Covered op) (hw : OpWFR b op)
+/-- **One step refines the reference model** — every one of the 24 operations of the history
+language (`add`, `ignore`, `clear`, `append`, `concat`, `rename`, `appendId`, `cleanNames`, `trimNames`,
+`trimAuto`, `sort`, `permute`, `filter`, `dedup`, `rmSeqs`, `translate`, `clone`, `sample`, `toUpper`,
+`toLower`, `replace`, `setChar`, `trimSeqs`, `autoAlpha`), arbitrary arguments: whenever the reference
+specifies the outcome of the operation on the observable content, the Go-shaped model yields exactly
+that content (names, row order, residues, policy, alphabet, kind) and that status, and the strong
+invariant holds again. -/
+theorem step_refines (b : Bag) (h : Good b) (op : Op) (hw : OpWFR b op)
     (s' : Spec.SBag) (st : String) (hs : Spec.stepOp (abs b) op = (some s', st)) :
     abs (stepOp b op).1 = s' ∧ (stepOp b op).2 = st ∧ Good (stepOp b op).1 := by
   have : Refines b op := by
@@ -411,7 +407,7 @@ theorem step_refines (b : Bag) (h : Good b) (op : Op) (hc : Covered op) (hw : Op
     | ignore p => exact ref_ignore h p
     | clear => exact ref_clear h
     | append rows => exact ref_append h rows
-    | concat rows => exact absurd hc id
+    | concat rows => exact ref_concat h rows
     | rename m => exact ref_rename h m
     | appendId id right => exact ref_appendId h id right
     | cleanNames => exact ref_cleanNames h
@@ -422,7 +418,7 @@ theorem step_refines (b : Bag) (h : Good b) (op : Op) (hc : Covered op) (hw : Op
     | filter mn mx => exact ref_filter h mn mx
     | dedup g => exact ref_dedup h g
     | rmSeqs c num den ic ig iN => exact ref_rmSeqs h c num den ic ig iN
-    | translate ph code => exact absurd hc id
+    | translate ph code => exact ref_translate h ph code
     | clone => exact ref_clone h
     | sample nb perm => exact ref_sample h nb perm hw
     | toUpper => exact ref_toUpper h
@@ -449,7 +445,7 @@ def HistWFR : Bag → List Op → Prop
 /-- **Refinement for histories of any length** (induction): as far as the reference model specifies
 the history, the Go-shaped model shows the same content after it and returned the same status at every
 step; the strong invariant holds at the end. -/
-theorem run_refines (ops : List Op) (b : Bag) (h : Good b) (hc : ∀ op ∈ ops, Covered op) (hw : HistWFR b ops)
+theorem run_refines (ops : List Op) (b : Bag) (h : Good b) (hw : HistWFR b ops)
     (s' : Spec.SBag) (sts : List String) (hs : specRun (abs b) ops = some (s', sts)) :
     abs (finalState b ops) = s' ∧ (runOps b ops).map (·.2) = sts ∧ Good (finalState b ops) := by
   induction ops generalizing b sts with
@@ -467,8 +463,8 @@ theorem run_refines (ops : List Op) (b : Bag) (h : Good b) (hc : ∀ op ∈ ops,
         obtain ⟨⟨r1, r2⟩, hr, e1, e2⟩ := hs
         simp only at e1 e2
         subst e1
-        obtain ⟨g1, g2, g3⟩ := step_refines b h op (hc op (by simp)) hw.1 s1 st hstep
-        obtain ⟨k1, k2, k3⟩ := ih (stepOp b op).1 g3 (fun o ho => hc o (List.mem_cons_of_mem _ ho)) hw.2 r2
+        obtain ⟨g1, g2, g3⟩ := step_refines b h op hw.1 s1 st hstep
+        obtain ⟨k1, k2, k3⟩ := ih (stepOp b op).1 g3 hw.2 r2
           (by rw [g1, hr])
         simp only [finalState, List.foldl_cons] at k1 k3 ⊢
         refine ⟨k1, ?_, k3⟩
@@ -504,10 +500,12 @@ example : Inv (finalState (newAlign 1) [.add "a" [65, 67], .add "a" [71, 84], .r
 
 example : (finalState (newAlign 1) [.add "a" [65, 67], .add "a" [71, 84]]).rows.map (·.name) = ["a", "a_0001"] := by decide
 
--- a history with a name collision made by the caller, a sort, a filter, a deduplication and a clone:
--- the reference specifies every step, so the refinement theorem applies to it
-example : (specRun (abs (newAlign 1)) [.add "a" [65, 67], .add "a" [71, 84], .add "c" [65, 67], .rename [("c", "b")],
-    .filter 1 5, .dedup false, .clone]).isSome = true := by decide
+-- a history with a renamed duplicate, a rename, a filter, a deduplication, a clone, a concatenation (one row
+-- present in both, one only on the right) and a translation: the reference specifies every step, so the
+-- refinement theorem applies to it
+set_option maxRecDepth 100000 in
+example : (specRun (abs (newAlign 1)) [.add "a" [65, 67, 71], .add "a" [71, 84, 84], .add "c" [65, 67, 71], .rename [("c", "b")],
+    .filter 1 5, .dedup false, .clone, .concat [("a", [71, 71, 71]), ("z", [84, 84, 84])], .translate 0 0]).isSome = true := by decide
 
 -- three frames of a 5-column alignment (5 ≡ 2 mod 3) followed by a filter: within the rectangularity theorem
 example : HistRectOK (newAlign 1) [.add "a" [65, 67, 71, 84, 65], .translate (-1) 0, .filter 1 5] :=
